@@ -40,6 +40,7 @@ class Recorder:
         self.streams = None          # per-handler random streams (C20): hid -> random.Random
         self.stream_seed = 0
         self.cur_stream = None
+        self.cur_handler = None      # the event handler whose send_out_state is being executed
         self.hid_instate = {}        # hid -> {identifier: (position, velocity, time stamp)} when its candidate was computed
         self.delays = {}             # hid -> (seconds before answering send_event_time, before answering send_out_state)
         self.max_legs = max_legs
@@ -445,7 +446,9 @@ def install(recorder):
     from jellyfysh.base.exceptions import EndOfRun
 
     def wrap(cls, name, make):
-        orig = cls.__dict__[name]
+        # the method may be inherited (e.g. InversePowerCoulombBoundingPotential.derivative lives in an abstract base class):
+        # the wrapper is then installed on this class and calls the inherited function
+        orig = cls.__dict__[name] if name in cls.__dict__ else getattr(cls, name)
         if getattr(orig, "_verif_wrapped", False):
             return
         new = make(orig)
@@ -720,11 +723,13 @@ def install(recorder):
             outer, r.ctx = r.ctx, []
             argstates = [r.states(a if isinstance(a, (list, tuple)) else [a]) for a in args]
             outer_stream, r.cur_stream = r.cur_stream, r.stream_of(hid)
+            outer_handler, r.cur_handler = r.cur_handler, self
             try:
                 ret = orig(self, *args, **kw)
             finally:
                 events, r.ctx = r.ctx, outer
                 r.cur_stream = outer_stream
+                r.cur_handler = outer_handler
             r.worker_delay(hid, 1)
             if hid:
                 r.emit("out", hid=hid, args=argstates, out=r.states(ret), sub=out_sub(self, events), **r.drain_descs())
@@ -865,7 +870,21 @@ def install(recorder):
         def mk_bder(orig):
             def derivative(self, *a, **k):
                 ret = orig(self, *a, **k)
-                log("bder", ret)
+                # is the state of the handler that asks already at its event time?  (C04: the confirmation compares rates at the
+                # configuration of the event, not at the configuration of the last time stamps)
+                sliced = 1
+                h = REC.cur_handler
+                if h is not None:
+                    try:
+                        et = h._event_time
+                        for n in REC.walk(h._state):
+                            u = n.value
+                            if u.velocity is not None and u.time_stamp is not None and et is not None and not (
+                                    u.time_stamp.quotient == et.quotient and u.time_stamp.remainder == et.remainder):
+                                sliced = 0
+                    except (AttributeError, TypeError):
+                        sliced = 1
+                log("bder", ret, sliced)
                 return ret
             return derivative
         wrap(IPCB, "derivative", mk_bder)
@@ -891,7 +910,8 @@ def install(recorder):
                 ref = 0.0
                 for d in pair_bounds:
                     ref += max(0.0, d)
-                sub["thin"].append(dict(qb=fkey(qb), q=fkey(q), drawn=int(u is not None), u=fkey(u) if u is not None else list(NAN),
+                sub["thin"].append(dict(sliced=min([e2[2] for e2 in events if e2[0] == "bder" and len(e2) > 2] or [1]),
+                                        qb=fkey(qb), q=fkey(q), drawn=int(u is not None), u=fkey(u) if u is not None else list(NAN),
                                         npairs=len(pair_bounds), qbref=fkey(ref) if len(pair_bounds) > 1 else fkey(qb),
                                         qbs=repr(qb), qs=repr(q)))
             i += 1
